@@ -1133,6 +1133,20 @@ pub fn run(out: &mut Out, tier: &str, seed: u64, prop: &str) {
                             }
                             out.stat("c13.witnessed_true");
                         }
+                        // the same with a candidate interpreter version that carries a pre / dev / post / local part
+                        for suffix in ["rc1", ".dev0", ".post1", "+local.1", "a1"] {
+                            let mut e2 = CEnv { vers: e.vers.clone(), strs: e.strs.clone(), extras: e.extras.clone() };
+                            e2.vers[1] = format!("{}{}", e.vers[1], suffix);
+                            e2.vers[0] = format!("{}{}", e.vers[0], suffix);
+                            let (Ok(pv), Ok(_)) = (Version::from_str(&e2.vers[1]), Version::from_str(&e2.vers[0])) else { continue };
+                            if e2.eval(&a.tree) {
+                                out.evaluations += 1;
+                                if !a.tree.evaluate_extras_and_python_version(&hs, &[Version::from_str("2.7").unwrap(), pv.clone()]) || !a.tree.evaluate_extras_and_python_version(&hs, &[pv]) {
+                                    out.oracle_fail("C13", "evaluate_extras_and_python_version returned false although an environment with that (decorated) version satisfies the marker", serde_json::json!({"m": a.term.line(), "extras": s, "env": e2.line(), "python_full_version": e2.vers[1]}));
+                                }
+                                out.stat("c13.witnessed_true_decorated");
+                            }
+                        }
                     }
                     if got { out.stat("c13.true") } else { out.stat("c13.false") }
                 }
@@ -1233,7 +1247,9 @@ pub fn run(out: &mut Out, tier: &str, seed: u64, prop: &str) {
                 // `!= A.*` rendering: same major / next minor (the only pair that IS a star inequality), other majors with the
                 // minor + 1 pattern, same major with a gap, three-segment bounds
                 for k in 0..3usize {
-                    for (a, b) in [("3.7", "3.8"), ("2.7", "3.8"), ("2.6", "3.7"), ("3.9", "4.10"), ("3.7", "3.9"), ("3.7", "4.8"), ("3.7", "4.0"), ("3.9", "3.10"), ("3.7.1", "3.7.2"), ("3.7", "3.8.0"), ("0.0", "0.1"), ("0.9", "1.10")] {
+                    for (a, b) in [("3.7", "3.8"), ("2.7", "3.8"), ("2.6", "3.7"), ("3.9", "4.10"), ("3.7", "3.9"), ("3.7", "4.8"), ("3.7", "4.0"), ("3.9", "3.10"), ("3.7.1", "3.7.2"), ("3.7", "3.8.0"), ("0.0", "0.1"), ("0.9", "1.10"),
+                        // an upper bound that only STARTS with the next minor
+                        ("3.8", "3.9.1"), ("3.8", "3.9.0.1"), ("3.8", "3.9.5.2"), ("3.8.0", "3.9.1"), ("2.7", "2.8.10")] {
                         let outside = Term::or(Term::V(k, 2, a.into()), Term::V(k, 5, b.into()));
                         shapes.push(outside.clone());
                         shapes.push(Term::and(outside.clone(), Term::S(1, 0, "posix".into())));
@@ -1267,6 +1283,11 @@ pub fn run(out: &mut Out, tier: &str, seed: u64, prop: &str) {
                                 if o1 != o2 { pairs.push((Term::S(k, o1, v.into()), Term::S(k, o2, v.into()))); }
                             } }
                         }
+                    }
+                    // two DIFFERENT texts that are both not valid extra names: different variables, whatever they have in common
+                    for (a, b) in [("foo bar", "baz!"), ("a b", "c d"), ("\u{e9}", "\u{fc}"), ("", "not valid"), ("Not An Extra!", "not an extra!")] {
+                        pairs.push((Term::X(false, a.into()), Term::X(true, b.into())));
+                        pairs.push((Term::X(true, a.into()), Term::X(false, b.into())));
                     }
                     pairs.push((Term::X(false, "dev".into()), Term::X(true, "test".into())));
                     pairs.push((Term::X(true, "dev".into()), Term::X(false, "test".into())));
